@@ -77,8 +77,10 @@ def family(ctx, cfg, workers=4, timeout=300, overrides=None, tag=None, coverage=
     tag = tag or os.path.splitext(cfg)[0]
     tmp = os.path.join(ctx.sub("cfg"), tag + ".cfg")
     open(tmp, "w").write(text)
+    # heap 4g: the fingerprint set and the queue are off-heap / on disk; with the default cap (8g) nine
+    # concurrent family JVMs of three checks got each other OOM-killed on a 62 GB machine
     res = V.tlc(ctx, "MC_ZRaft", tag + ".cfg", workers=workers, timeout=timeout, tag=tag,
-                files={tmp: tag + ".cfg"}, coverage=coverage)
+                files={tmp: tag + ".cfg"}, coverage=coverage, heap="4g")
     return res
 
 
@@ -493,7 +495,12 @@ def run_check(ctx, prop):
         if os.environ.get("ZR_SKIP_MODEL"):      # development aid for detection tables: (A) does not depend on /repo
             model["runs"] = []
             return
-        model["runs"] = run_families(ctx, fams, workers=4, timeout=300, par=3)
+        model["runs"] = run_families(ctx, fams, workers=4, timeout=600, par=3)     # 60-90 s on a quiet machine; 200 s seen at load 130
+        late = [r["cfg"] for r in model["runs"] if not r["ok"]]
+        if late:
+            # the bounded families are sized to complete in 60-90 s; one that does not (busy machine) means the
+            # claimed level (model checking) is not supported by this run: inconclusive, never a weaker level
+            model["late"] = late
         if not quick:
             # the cfg files as they are; for C01 the three that add something over the bounded runs
             # (pre-vote + check-quorum with duplication, and the two membership families with the
@@ -536,13 +543,11 @@ def run_check(ctx, prop):
                        storage="rocks-mem", profile="noconf", steps=1200)
             conformance(ctx, zr, prop, [("rocks-snapshot-over-longer-log", st2, 3006)], stats, samples, par=1)
         if prop == "C02":
-            # isolate stage of finding raft-readindex-counts-learner-acks (a deposed leader partitioned with its
-            # learner serves a read)
+            # formerly the isolate stage of finding raft-readindex-counts-learner-acks (fixed): a deposed leader
+            # partitioned with its learner is asked for a read; the learner's heartbeat ack must not release it
             isr = dict(n=4, voters=[1, 2, 3], learners=[4], prevote=False, cq=False, maxsz=1 << 20, maxcsz=0,
-                       storage="memory", profile="readlearner", steps=0, noavoid=True)
-            b0 = stats["rejected"]
-            conformance(ctx, zr, prop, [("stale-read-via-learner-isolate", isr, ctx.seed)], stats, samples, par=1, expect_sig=True)
-            stats["isolate_rejected"] += stats["rejected"] - b0
+                       storage="memory", profile="readlearner", steps=0)
+            conformance(ctx, zr, prop, [("stale-read-via-learner", isr, ctx.seed)], stats, samples, par=1)
         if prop in ("C02", "C03"):
             # snapshot over a divergent tail (scenarioSnapshotOverDivergentTail, three variants per run):
             # 5 voters, three leaderships, the returning replica's log is longer than the snapshot with a
@@ -564,6 +569,17 @@ def run_check(ctx, prop):
                                          profile="growone", steps=250, allow1=True, tracecfg="ZRaftTrace_growone.cfg"),
                   ctx.seed * 1000 + 900 + k) for k in range(2 if quick else 8)]
             conformance(ctx, zr, prop, g, stats, samples, par=2 if quick else 6)
+        if prop in ("C01", "C03"):
+            # power loss right after a vote was answered, then a second candidate of the same term
+            # (scenarioLostVote, both variants per run: vote written with / without a term change).  The
+            # trace rule follows the sync decision the real node made (Ready.MustSync as logged); a
+            # hard state write that should have been synced and was not shows by what the restarted
+            # voter answers next (VoteOncePerTerm, ElectionSafety).
+            lv = [("lost-vote-%d" % k, dict(n=5, voters=[1, 2, 3, 4, 5], learners=[], prevote=False, cq=False,
+                                            maxsz=1 << 20, maxcsz=0, storage=["memory", "rocks-mem"][k % 2],
+                                            profile="lostvote", steps=100),
+                   ctx.seed * 1000 + 950 + k) for k in range(2 if quick else 6)]
+            conformance(ctx, zr, prop, lv, stats, samples, par=2 if quick else 6)
         if prop == "C03":
             # formerly the isolate stage of finding raft-restarted-learner-rejects-snapshot (fixed in
             # 81aef80): a learner that restarts before its storage names it must catch up by snapshot
@@ -573,6 +589,9 @@ def run_check(ctx, prop):
 
     for _ in V.parallel(lambda f: f(), [do_model, do_traces], n=2):
         pass
+    if model.get("late") and not ctx.violations:      # a violation found on the code side is still reported (exit 1)
+        raise V.Inconclusive("exhaustive instance(s) %s did not complete within the time-out (busy machine?); "
+                             "the model-checking level is not supported by this run" % ", ".join(model["late"]))
     extra = {}
     if not quick:
         extra["spec_mutants"] = spec_mutants(ctx, {prop})
@@ -595,18 +614,9 @@ def run_check(ctx, prop):
         invariants_checked_on_every_trace_state=sorted(INV_PROP),
         checker_cmd="tlc -workers 1 -config ZRaftTrace.cfg ZRaftTrace (ZR_TRACE=<trace>, StateDeque)",
         **extra)
-    level = "model_checking"
-    if cov["states"] == 0 or cov["transitions"] == 0:
-        # no exhaustive run completed in its time-out (counted under skipped_subruns): this run
-        # only supports the exploration level - say so instead of claiming model checking
-        level = "exploration"
-        cov["evaluations"] = stats["traces"]
-        cov["distinct_nontrivial"] = stats.get("nontrivial", 0)
-        cov["rule"] = ("one evaluation = one raftsim run (own seed and configuration: group size, voters/learners, "
-                       "PreVote x CheckQuorum, message / hand-out size limits, storage) validated line by line by TLC "
-                       "against ZRaftTrace with all ZRaft invariants; distinct by seed; non-trivial = at least 100 "
-                       "validated events and at least one leader elected")
-        del cov["states"], cov["transitions"]
+    level = "model_checking"      # always the manifest's level; a run that cannot support it is inconclusive (above)
+    if not os.environ.get("ZR_SKIP_MODEL") and not ctx.violations and (cov["states"] == 0 or cov["transitions"] == 0):
+        raise V.Inconclusive("no exhaustive instance completed")
     V.write_evidence(ctx, level, cov, assumptions=ASSUMPTIONS)
 
 
